@@ -786,7 +786,15 @@ func (c *Ctx) ruleR10e(rule string) {
 					hasErr = true
 				}
 			}
-			if hasErr && sc.Signature.Results().Len() == 1 && isErrorType(sc.Signature.Results().At(0).Type()) {
+			// ... and hand an error back (a parsley.Error, or the decorated plain error Parse returns)
+			retErr := false
+			for i := 0; i < sc.Signature.Results().Len(); i++ {
+				t := sc.Signature.Results().At(i).Type()
+				if isErrorType(t) || types.Identical(t, types.Universe.Lookup("error").Type()) {
+					retErr = true
+				}
+			}
+			if hasErr && retErr {
 				seenFn[sc] = true
 				scope = append(scope, sc)
 			}
